@@ -142,10 +142,28 @@ func TestC09(t *testing.T) {
 		Gen: func(rt *rapid.T, h *harness.H) interface{} {
 			d := gen.D{T: rt}
 			c := &caseC09{}
-			switch d.Pick(4, "source") {
-			case 0: // type environments with one defect and trivial users
+			switch d.Pick(8, "source") {
+			case 0, 1: // type environments with one defect and trivial users
 				cc := genC10(rt, h).(*caseC10)
 				c.Text, c.Kind = cc.Text, "types:"+cc.Class
+			case 4: // recursive types met out of phase through forwards, calls and typed cuts
+				cc := equalityProgram(rt, h)
+				if cc == nil {
+					return nil
+				}
+				c.Text, c.Kind = cc.Text, "typed:equality program"
+			case 2, 3: // what C07 judges: well-typed programs, their mutants, equality programs (recursive
+				// types related through forwards, calls and cuts), mode matrices
+				ci := genC07(rt, h)
+				cc, ok := ci.(*caseC07)
+				if !ok || cc == nil {
+					return nil
+				}
+				kind := "typed:" + cc.Expect
+				if i := strings.Index(cc.Mutant, ":"); i > 0 {
+					kind = "typed:" + cc.Mutant[:i]
+				}
+				c.Text, c.Kind = cc.Text, kind
 			default:
 				g := &gen.Syn{D: d, NoAssuming: d.Bool("closed")}
 				c.Text, c.Kind = g.Program().Text(&astStyle), "syn"
